@@ -101,6 +101,13 @@ func DeclareView(ctx context.Context, scope *ReferenceScope, expr parser.ViewDec
 }
 
 func Select(ctx context.Context, scope *ReferenceScope, query parser.SelectQuery) (*View, error) {
+	return selectQuery(ctx, scope, query, false)
+}
+
+// selectQuery executes a select query. If recursive is true, the query is the definition of the recursive
+// inline table scope.RecursiveTable and the set operation at the top of the query is the recursion.
+// Set operations nested in its operands, in subqueries or in inline tables are ordinary set operations.
+func selectQuery(ctx context.Context, scope *ReferenceScope, query parser.SelectQuery, recursive bool) (*View, error) {
 	var intoVars []parser.Variable = nil
 	if selectEntity, ok := query.SelectEntity.(parser.SelectEntity); ok && selectEntity.IntoClause != nil {
 		intoClause := selectEntity.IntoClause.(parser.IntoClause)
@@ -129,6 +136,7 @@ func Select(ctx context.Context, scope *ReferenceScope, query parser.SelectQuery
 		queryScope,
 		query.SelectEntity,
 		query.IsForUpdate(),
+		recursive,
 	)
 	if err != nil {
 		queryScope.CloseCurrentNode()
@@ -187,10 +195,10 @@ func Select(ctx context.Context, scope *ReferenceScope, query parser.SelectQuery
 	return view, err
 }
 
-func selectEntity(ctx context.Context, scope *ReferenceScope, expr parser.QueryExpression, forUpdate bool) (*View, error) {
+func selectEntity(ctx context.Context, scope *ReferenceScope, expr parser.QueryExpression, forUpdate bool, recursive bool) (*View, error) {
 	entity, ok := expr.(parser.SelectEntity)
 	if !ok {
-		return selectSet(ctx, scope, expr.(parser.SelectSet), forUpdate)
+		return selectSet(ctx, scope, expr.(parser.SelectSet), forUpdate, recursive)
 	}
 
 	if entity.FromClause == nil {
@@ -231,7 +239,7 @@ func selectSetEntity(ctx context.Context, scope *ReferenceScope, expr parser.Que
 		return Select(ctx, scope, subquery.Query)
 	}
 
-	view, err := selectEntity(ctx, scope, expr, forUpdate)
+	view, err := selectEntity(ctx, scope, expr, forUpdate, false)
 	if err != nil {
 		return nil, err
 	}
@@ -239,13 +247,13 @@ func selectSetEntity(ctx context.Context, scope *ReferenceScope, expr parser.Que
 	return view, err
 }
 
-func selectSet(ctx context.Context, scope *ReferenceScope, set parser.SelectSet, forUpdate bool) (*View, error) {
+func selectSet(ctx context.Context, scope *ReferenceScope, set parser.SelectSet, forUpdate bool, recursive bool) (*View, error) {
 	lview, err := selectSetEntity(ctx, scope, set.LHS, forUpdate)
 	if err != nil {
 		return nil, err
 	}
 
-	if scope.RecursiveTable != nil {
+	if recursive && scope.RecursiveTable != nil {
 		scope.RecursiveTmpView = nil
 		err := selectSetForRecursion(ctx, scope, lview, set, forUpdate)
 		if err != nil {
